@@ -1473,17 +1473,26 @@ class StorageBackendBase(StorageBackend, ABC):
             # Write through to memory cache
             self._memory_cache.put(memento, result, has_result=True)
 
-        # Write data
-        result_type = memento.invocation_metadata.result_type
-        content_key = self.codec.store(
-            result_type, self._data_source, key_override, result
-        )
-        log.debug("Wrote data to {}".format(content_key))
-        assert (result_type == ResultType.null) or (content_key is not None)
-        memento.content_key = content_key
+        try:
+            # Write data
+            result_type = memento.invocation_metadata.result_type
+            content_key = self.codec.store(
+                result_type, self._data_source, key_override, result
+            )
+            log.debug("Wrote data to {}".format(content_key))
+            assert (result_type == ResultType.null) or (content_key is not None)
+            memento.content_key = content_key
 
-        # Write metadata
-        self._metadata_source.put_memento(memento)
+            # Write metadata
+            self._metadata_source.put_memento(memento)
+        except BaseException:
+            # The write did not go through. The memory cache must not go on reporting the
+            # call as memoized: the runner would then never try to write the result again.
+            if self._memory_cache:
+                self._memory_cache.forget_call(
+                    memento.invocation_metadata.fn_reference_with_args.fn_reference_with_arg_hash()
+                )
+            raise
 
     def read_metadata(
         self,
